@@ -14,8 +14,8 @@ import math
 from mc import pv
 from mc.engine import Check, h64
 
-BPTS = [1.0, 1.5, 2.0, 3.3, 4.0]
-BPTS_THOROUGH = [1.0, 1.5, 2.0, 2.5, 3.3, 4.0, 6.7]
+BPTS = [1.0, 1.5, 2.0, 3.3, 4.0, 6.0]
+BPTS_THOROUGH = [1.0, 1.5, 2.0, 2.5, 3.3, 4.0, 6.0, 6.7]
 SEPS = [(), (("G", 2, "scaffold"),), (("G", 7, "contig"),), (("G", 200, "scaffold"),)]
 
 
@@ -42,6 +42,8 @@ def scaffolds_b(style):
         ("scaffold_2", pv.scaffold_rows(style, "scaffold_2", (9,), (), (1,))),
         ("scaffold_2", pv.scaffold_rows(style, "scaffold_2", (3, 5), (SEPS[1],), (1, 1))),
         ("scaffold_2", pv.scaffold_rows(style, "scaffold_2", (1, 1), (SEPS[1],), (1, 1))),
+        # three tiny contigs: a gap, then two that abut (TPF naming) / two gaps (FASTA naming); absent from the map at >= 6 bp/texel
+        ("scaffold_2", pv.scaffold_rows(style, "scaffold_2", (1, 1, 1), (SEPS[2][:0] or (("G", 2, "contig"),), () if style == "tpf" else (("G", 1, "contig"),)), (1, 1, 1))),
     ]
 
 
@@ -64,7 +66,7 @@ class C08(Check):
     rule = (
         "case = (input assembly, null map). input: scaffold_1 = every 1-3 contig scaffold over lengths {1,2,3,4,5,9} (+12 thorough), separators "
         "{none, 2 scaffold, 7 contig, 200 scaffold}, all-forward or alternating strands (TPF naming) / FASTA naming, x scaffold_2 from 6 small "
-        "scaffolds or none; bpt {1,1.5,2,3.3,4}; per scaffold texel count floor or ceil (0 = absent, only possible for sub-texel scaffolds), bait "
+        "scaffolds or none; bpt {1,1.5,2,3.3,4,6}; per scaffold texel count floor or ceil (0 = absent, only possible for sub-texel scaffolds), bait "
         "[1, floor(n*bpt)]; both map orders; all unpainted / all painted. Precondition: last contig of every mapped scaffold >= bpt. Oracle "
         "unpainted: only the primary assembly, name->rows equal to the input, cuts=breaks=joins=0, no haplotig assembly. Painted: same rows "
         "per scaffold, mapped scaffolds named <prefix>1..k by non-increasing size, absent ones keep their name. non-trivial = map whose bait end "
